@@ -472,6 +472,13 @@ class EvalMixin:
             return z3.Select(ops.d_has(sc, ref(cont.t)), x.t)
         if h == "str":
             return z3.Contains(self.as_str(cont), self.as_str(x))
+        if h == "tuple":
+            # a tuple of fixed arity: x in (a, b, ...) is x == a or x == b or ...
+            alts = []
+            for j, ek in enumerate(k[1:]):
+                el = SV(z3.Select(seq_els(cont.t), j), ek, cont.h)
+                alts.append(self.eq(st, x, el))
+            return z3.Or(alts) if alts else z3.BoolVal(False)
         raise OutOfSubset("`in` on kind %r (line %s)" % (cont.k, getattr(node, "lineno", "?")))
 
     # ------------------------------------------------------------ subscripts
